@@ -179,7 +179,16 @@ SCALARS = [
     lambda: NpInt(2 ** 31), lambda: NpBool(True), lambda: Floatable(1), lambda: Floatable(1.5), lambda: Floatable(2 ** 40),
     lambda: "2147483647", lambda: "2147483648", lambda: "1e2", lambda: "0x10", lambda: 2147483647.0, lambda: -2147483648.0,
     lambda: -2147483649.0, lambda: ValueError, lambda: (lambda: 1),
+    # the library's own exception classes and non-Exception exceptions, as values
+    lambda: _lib().TartifletteError("library error as a value"), lambda: _lib().MultipleException(),
+    lambda: _lib().MultipleException([ValueError("inner as value")]), lambda: __import__("asyncio").CancelledError(),
+    lambda: KeyboardInterrupt(), lambda: GeneratorExit(), lambda: _lib().MultipleException, lambda: BaseException("base as value"),
 ]
+
+
+def _lib():
+    from tartiflette.types.exceptions import tartiflette as m
+    return m
 
 CONTAINERS = [
     lambda: [], lambda: [1, 2], lambda: [None], lambda: [[1], [2]], lambda: [[]], lambda: ["a", 1, None, 2.5],
